@@ -64,11 +64,11 @@ func genC12(t *rapid.T) C12Scenario {
 		nc := rapid.IntRange(1, 3).Draw(t, "nchunks")
 		var w []C12Chunk
 		for j := 0; j < nc; j++ {
-			w = append(w, C12Chunk{Off: rapid.IntRange(0, 7).Draw(t, "coff"), N: rapid.IntRange(1, 4).Draw(t, "cn")})
+			w = append(w, C12Chunk{Off: rapid.IntRange(0, 15).Draw(t, "coff"), N: rapid.IntRange(1, 4).Draw(t, "cn")})
 		}
 		s.Writers = append(s.Writers, w)
 	}
-	s.Tape = rapid.SliceOfN(rapid.IntRange(0, 7), 0, 150).Draw(t, "tape")
+	s.Tape = rapid.SliceOfN(rapid.IntRange(0, 15), 0, 150).Draw(t, "tape")
 	s.DSYield = rapid.IntRange(0, 2).Draw(t, "dsyield") > 0
 	return s
 }
